@@ -14,7 +14,8 @@ CODES = {1: "the model cannot print the description (it predicts a panic in rpcT
          3: "the description goa handed to its printer is outside the model's well-formedness hypotheses",
          4: "the verified recogniser rejects the real .proto tokens",
          5: "a message of the real .proto has invalid or repeated numbers / names",
-         6: "a main-stream message is outside the hypotheses of tags_unique_partial"}
+         6: "a main-stream message is outside the hypotheses of tags_unique_partial",
+         7: "a message of a design goa accepted is refused by the model of goa's field number validation"}
 
 
 def run(tier, replay=None):
@@ -51,6 +52,8 @@ def run(tier, replay=None):
         mm["witness"] = ck.coq_eval_cases(lines("cases_witness.txt"), hdr, "int * file * wobs", "witness_mismatches", shards=1, tag="witness")
     if ck.coq_ok:
         mm["runtime"] = ck.coq_eval_cases(lines("cases_runtime.txt"), hdr, "int * mdata * list (str * list str) * list (str * list str) * bool * bool * list stage", "runtime_mismatches", tag="runtime")
+    if ck.coq_ok:
+        mm["reject"] = ck.coq_eval_cases(lines("cases_reject.txt"), hdr, "int * list member", "reject_mismatches", tag="reject")
     if ck.coq_ok:
         mm["order"] = ck.coq_eval_cases(lines("cases_order.txt"), hdr, "int * list decl * skind", "order_mismatches", tag="order")
     if ck.coq_ok:
@@ -93,7 +96,7 @@ def run(tier, replay=None):
             ck.notes.append(k)
     cov = {"evaluations": res["evaluations"], "distinct_nontrivial": res["distinct_nontrivial"], "rule": res["rule"],
            "samples": res["samples"], "distribution": res["distribution"],
-           "model_cases": {s: len(lines("cases_%s.txt" % s)) for s in ("main", "names", "split", "reqmd", "order", "witness", "runtime", "history", "values")},
+           "model_cases": {s: len(lines("cases_%s.txt" % s)) for s in ("main", "names", "split", "reqmd", "order", "reject", "witness", "runtime", "history", "values")},
            "model_mismatches": {s: (len(b) if b is not None else None) for s, b in mm.items()} if ck.coq_ok else None,
            "extra": res.get("extra", {}), "exhaustive": False,
            "partial": "protoc is absent: the protoc finaliser is dropped, the protobuf wire format is not exercised, tier B uses stand-in pb structs with protoc-gen-go's field naming"}
